@@ -7,7 +7,7 @@ import gate
 
 CONFIGS = ['prod']
 EXPLANATION = (
-    'Decided clauses: L monotone LWW guards in insert_with_source / delete_with_source / try_update_max_stamp and their '
+    'Decided clauses: B no blind overwrite — a timestamp written into a map slot with `insert` competed with what the slot held; L monotone LWW guards in insert_with_source / delete_with_source / try_update_max_stamp and their '
     'and_modify closures (stored operand is the greater on every guard edge); T1 the order is the derived order of the single '
     'packed u64 word (layout checked bit-exactly under C10.E1); R the returned flag is set exactly where the entries/dead map '
     'is written; G will_apply consults every stamp table a mutator consults to refuse. NOT decided: the full outcome over all '
@@ -125,6 +125,8 @@ def check(ctx):
         return
     n = lww.check_bodies(ctx, facts, 'C04.L', roots, 'mutators')
     ctx.floor('C04.L', 'survivor guards in the mutators', n, 5)
+    nb = lww.check_blind_overwrites(ctx, facts, 'C04.B', roots[:2])
+    ctx.floor('C04.B', 'timestamp stores by insert in the mutators', nb, 2)
     check_T1(ctx, facts)
     check_R(ctx, facts)
     gate.check_gate(ctx, facts, 'C04.G')
